@@ -355,6 +355,8 @@ fn apply_edit(bl: &mut BlockList, edit: &str) -> Result<(), Error> {
         }
         "comment" => bl.update::<VorbisComment>(|vc| vc.set("TITLE", "x".repeat(n))),
         "shrink" => bl.remove::<Application>(),
+        // same serialised size as what "comment:<n>" left behind: the equal-size branch of update_file
+        "same" => bl.update::<VorbisComment>(|vc| vc.set("TITLE", "y".repeat(n))),
         _ => return Err(Error::InvalidTotalSamples),
     }
     Ok(())
@@ -636,19 +638,27 @@ fn main() {
 
     // ---- update_file: in place and rebuilt
     for (name, inp) in &inputs {
-        let file = run_encode("sample", "raw", inp, Sched::default()).dev;
+        let file0 = run_encode("sample", "raw", inp, Sched::default()).dev;
         let has_pad = inp.padding.is_some();
-        let mut edits: Vec<(&str, String)> = vec![];
+        // (expected path, edit, preparation applied fault-free first)
+        let mut edits: Vec<(&str, String, Option<&str>)> = vec![];
         if has_pad {
-            edits.push(("inplace", "comment:5".to_string()));
-            edits.push(("inplace", "grow:3".to_string()));
+            edits.push(("inplace", "comment:5".to_string(), None));
+            edits.push(("inplace", "grow:3".to_string(), None));
+            // the two other in-place branches: metadata of exactly the old size, and shrinking metadata
+            edits.push(("inplace", "same:5".to_string(), Some("comment:5")));
+            edits.push(("inplace", "shrink:0".to_string(), Some("grow:3")));
         }
-        edits.push(("rebuild", "grow:1000".to_string()));
+        edits.push(("rebuild", "grow:1000".to_string(), None));
         if thorough {
-            edits.push(("rebuild", "comment:9000".to_string())); // metadata larger than the BufWriter
+            edits.push(("rebuild", "comment:9000".to_string(), None)); // metadata larger than the BufWriter
         }
-        for (expect, edit) in &edits {
-            let scn = format!("update:{}:{}:{}", expect, name, edit);
+        for (expect, edit, prep) in &edits {
+            let file = match prep {
+                None => file0.clone(),
+                Some(p) => { let o = run_update(&file0, p, Sched::default(), Sched::default(), false); if o.class != "ok:false" { continue; } o.dev }
+            };
+            let scn = format!("update:{}:{}:{}{}", expect, name, edit, match prep { Some(p) => format!(":after:{}", p), None => String::new() });
             let base = run_update(&file, edit, Sched::default(), Sched::default(), false);
             let want = if *expect == "inplace" { "ok:false" } else { "ok:true" };
             if base.class != want {
@@ -757,6 +767,7 @@ fn main() {
             }
         }
         // ---- decode: read faults are propagated, never a silently shorter stream
+        let file = file0.clone();
         let base = run_decode(&file, Sched::default());
         if base.0 == "ok" && base.1 == inp.pcm {
             let nr = Dev::new(file.clone(), 0, Sched::default());
